@@ -56,7 +56,7 @@ ANCHORS = ["txtorcon.torstate:TorState._maybe_attach", "txtorcon.torstate:TorSta
            "txtorcon.circuit:TorCircuitEndpoint.connect", "txtorcon.attacher:PriorityAttacher.attach_stream"]
 FLOORS = {"quick": {"evaluations": 800, "streams_judged": 2500, "via_connections_judged": 600,
                     "via_connections_on_a_reused_local_port": 30, "events_for_unattached_stream_while_attacher_undecided": 100, "attacher_removed_while_answers_pending": 40, "attachstream_commands_refused_by_tor": 15,
-                    "second_attacher_compares_equal": 50, "streams_first_seen_already_closed": 80,
+                    "second_attacher_compares_equal": 50, "sub_attacher_removed_itself_while_consulted": 60, "streams_first_seen_already_closed": 80,
                     "streams_first_seen_already_failed": 80, "decided_streams_ended_by_failed": 300,
                     "reach:txtorcon.torstate:TorState._maybe_attach": 2000,
                     "reach:txtorcon.circuit:_CircuitAttacher.attach_stream": 500},
@@ -361,8 +361,28 @@ def run_answers(case, rec):
         installed = PriorityAttacher()
         removed = Fixed(lambda circuits: circuits.get(2))
 
+        @implementer(IStreamAttacher)
+        class SelfRemoving(object):
+            """has no opinion and unregisters itself the first time it is consulted"""
+            def __init__(self):
+                self.consulted = 0
+
+            def attach_stream(self, stream, circuits):
+                self.consulted += 1
+                if self.consulted == 1:
+                    installed.remove_attacher(self)
+                    rec.count("sub_attacher_removed_itself_while_consulted")
+                return None
+
+            def attach_stream_failure(self, stream, fail):
+                pass
+
         def populate():
             installed.add_attacher(removed, priority=1)
+            if case.get("self_removing"):
+                # consulted before the main attacher whatever order the composition uses
+                installed.add_attacher(SelfRemoving(), priority=0)
+                installed.add_attacher(SelfRemoving(), priority=1)
             installed.add_attacher(att, priority=case["priority"])
             installed.add_attacher(Fixed(None), priority=0)
             installed.remove_attacher(removed)
@@ -603,7 +623,7 @@ def gen_answers_case(rnd, combo=None):
                          ("ghost", 70 + g, rnd.choice(["CLOSED", "FAILED"]), rnd.choice(["none", "built", "dna"])))
     refuse = [s["sid"] for s in streams if rnd.random() < 0.12]
     return {"kind": "answers", "streams": streams, "steps": steps, "remove": rnd.random() < 0.4 and not removed_mid,
-            "refuse_attach": refuse, "second_equal": rnd.random() < 0.5,
+            "refuse_attach": refuse, "second_equal": rnd.random() < 0.5, "self_removing": rnd.random() < 0.5,
             "priority": rnd.choice([0, 0, 2, 5]), "priority_late": rnd.random() < 0.4,
             "remove_before_ack": rnd.random() < 0.2, "chunking": gen.chunking(rnd)}
 
